@@ -64,6 +64,9 @@ type replayDoc struct {
 
 	// written window bounds (bounds_test.go)
 	Bounds *bReplay `json:"bounds,omitempty"`
+
+	// clock-answer sequences within one Deliver call (clockseq_test.go)
+	Seq *seqReplay `json:"clock_sequence,omitempty"`
 }
 
 const maxListedSteps = 5000
@@ -343,6 +346,13 @@ func runReplay(t *testing.T, r *runner.Run, path string) {
 			return
 		}
 		fl, err = bRecheck(t, *d.Bounds, doc.Key)
+		r.Add("evaluations", 1)
+	case "clockseq":
+		if d.Seq == nil {
+			r.Infra("replay: no clock sequence in the artefact")
+			return
+		}
+		fl, err = runSeqReplay(d.Windows, d.Variants, *d.Seq)
 		r.Add("evaluations", 1)
 	default:
 		r.Infra("replay: part %q has no case replay; run the check", d.Part)
